@@ -57,6 +57,11 @@ pub mod ext {
     pub fn expect_or_diverge<T, E: std::fmt::Debug>(res: Result<T, E>, msg: &str) -> (r: T)
         ensures res == Ok::<T, E>(r),
     { res.expect(msg) }
+    /// Rule R24 for `Option::expect`
+    #[verifier::external_body]
+    pub fn expect_some_or_diverge<T>(opt: Option<T>, msg: &str) -> (r: T)
+        ensures opt == Some(r),
+    { opt.expect(msg) }
     pub assume_specification<T> [Option::<T>::replace] (o: &mut Option<T>, v: T) -> (r: Option<T>)
         ensures r == *old(o), *final(o) == Some(v);
     /// what a RefCell was created with (ghost; says nothing about later contents)
